@@ -269,6 +269,8 @@ def build():
     add("multimerge", "pure", lambda: dict(dfs=[pd.DataFrame(dict(k=["a", "b"], x=[1, 2])), pd.DataFrame(dict(k=["b", "c"], y=[3, 4]))]), lambda a: prs.multimerge(a["dfs"], "k"))
     add("multimerge/suffixes", "pure", lambda: dict(dfs=[pd.DataFrame(dict(k=["a", "b"], x=[1, 2])), pd.DataFrame(dict(k=["b", "c"], x=[3, 4]))], s=["l", "r"]),
         lambda a: prs.multimerge(a["dfs"], "k", suffixes=a["s"]))
+    add("multimerge/index_suffixes", "pure", lambda: dict(dfs=[pd.DataFrame(dict(x=[1, 2]), index=["a", "b"]), pd.DataFrame(dict(x=[3, 4]), index=["b", "c"])], s=["l", "r"]),
+        lambda a: prs.multimerge(a["dfs"], "index", suffixes=a["s"]))
     add("seqs_to_regex", "pure", lambda: dict(seqs=["CAF", "CDF", "C-W"]), lambda a: prs.seqs_to_regex(a["seqs"], align=False))
     add("seqs_to_consensus", "pure", lambda: dict(seqs=["CAF", "CDF", "CAW"]), lambda a: prs.seqs_to_consensus(a["seqs"], align=False))
     # ---- plotting
